@@ -108,6 +108,11 @@ def enabled_ops(w, users, sps, nqs, fmts):
                 ops.append(('issue', u, sp, f))
                 ops.append(('construct', u, sp, f))
         ops.append(('remove_local', u))
+        # an identifier supplied from outside (store()), with and without surrounding white space; a text is stored
+        # at most once in a history (double storage is the subject of the removal layer below)
+        for x in EXT:
+            if x not in w.ref.ever:
+                ops.append(('store', u, x))
     ids = canon_ids(w)
     for i in range(len(ids)):
         ops.append(('remove_remote', i))
@@ -124,6 +129,7 @@ def enabled_ops(w, users, sps, nqs, fmts):
 
 
 NEVER = (None, 'spA', PERSISTENT, None, 'never-issued-text')
+EXT = ('ext-4711', ' ext-4711', 'ext-4711 ')
 
 
 def apply_op(w, op):
@@ -190,6 +196,10 @@ def apply_op(w, op):
             if n.text in ref.ever:
                 bad.append('construct-not-fresh')
             ref.issue(u, n)
+        elif k == 'store':
+            n = mk_nameid((None, 'spA', PERSISTENT, None, op[2]))
+            db.store(op[1], n)
+            ref.issue(op[1], n)
         elif k == 'remove_local':
             u = op[1]
             db.remove_local(u)
@@ -366,6 +376,76 @@ def expand(hist):
     return kids, viol, len(ops)
 
 
+# ---------------------------------------------------------------- removal layer
+
+R_OPS = [('store', 'u1', 'X'), ('store', 'u1', 'Y'), ('store', 'u2', 'Z'), ('persistent', 'u1'), ('transient', 'u1'),
+         ('remove_local', 'u1'), ('remove_remote', 'X')]
+
+
+def removal_eval(seq):
+    """One sequence of R_OPS (the same identifier may be stored twice): after remove_local(u1) nothing issued to u1
+    resolves or is listed, u2 is untouched, and an identifier issued afterwards resolves to u1.
+    Returns (why, prefix length) or None."""
+    from saml2_tophat.ident import IdentDB
+    env.reset_rng()
+    db = IdentDB({}, domain='example.org')
+    mine, other = [], []
+    for i, op in enumerate(seq):
+        try:
+            if op[0] == 'store':
+                nid = mk_nameid((None, 'spA', PERSISTENT, None, 'ext-' + op[2]))
+                db.store(op[1], nid)
+                (mine if op[1] == 'u1' else other).append(nid)
+            elif op[0] == 'persistent':
+                mine.append(db.persistent_nameid('u1', 'spA', ''))
+            elif op[0] == 'transient':
+                mine.append(db.transient_nameid('u1', 'spA', ''))
+            elif op[0] == 'remove_remote':
+                db.remove_remote(mk_nameid((None, 'spA', PERSISTENT, None, 'ext-X')))
+            else:
+                db.remove_local('u1')
+                why = None
+                if any(db.find_local_id(x) is not None for x in mine):
+                    why = 'identifier-resolves-after-its-user-was-removed'
+                elif db.find_nameid('u1'):
+                    why = 'identifiers-listed-after-their-user-was-removed'
+                elif any(db.find_local_id(x) != 'u2' for x in other):
+                    why = 'other-users-identifier-lost-by-removal'
+                else:
+                    fresh = db.persistent_nameid('u1', 'spA', '')
+                    if db.find_local_id(fresh) != 'u1':
+                        why = 'identifier-issued-after-removal-resolves-to-nobody'
+                    elif any(fresh.text == x.text for x in mine):
+                        why = 'identifier-issued-after-removal-reuses-withdrawn-text'
+                    db.remove_local('u1')
+                    if why is None and db.find_local_id(fresh) is not None:
+                        why = 'identifier-resolves-after-its-user-was-removed'
+                if why:
+                    return why, i + 1
+                mine = []
+        except KeyError:
+            pass      # remove_remote of an identifier that is not stored
+    return None
+
+
+def removal_chunk(first):
+    """Every sequence over R_OPS of length <= CFG['rdepth'] that starts with `first`."""
+    bad = []
+    n = 0
+    for k in range(0, CFG['rdepth']):
+        for rest in itertools.product(R_OPS, repeat=k):
+            seq = (tuple(first),) + rest
+            n += 1
+            r = removal_eval(seq)
+            if r:
+                bad.append((r[0], [list(o) for o in seq[:r[1]]]))
+    # a failing prefix is reported once
+    uniq = {}
+    for why, sq in bad:
+        uniq.setdefault(repr(sq), (why, sq))
+    return n, list(uniq.values())
+
+
 # ---------------------------------------------------------------- encoding table
 
 ALPH = ['a', ',', '=', '%', ' ', '"', 'é', '/', '+', '0', '&', '%2C', '1=x']
@@ -458,6 +538,13 @@ def run(ctx):
             if bad or k1 != canon_key(w2):
                 ctx.violation({'kind': 'shelve-differs', 'ops': h, 'why': ';'.join(bad)}, {})
             shelf_n += 1
+    # removal layer
+    CFG['rdepth'] = 4 if not ctx.thorough else 5
+    rem = ctx.pmap(removal_chunk, R_OPS, chunksize=1)
+    n_rem = sum(r[0] for r in rem)
+    for _n, bad in rem:
+        for why, seq in bad[:40]:
+            ctx.violation({'kind': 'removal', 'why': why, 'ops': seq}, {})
     # encoding table
     vals = strings(1 if not ctx.thorough else 2)
     chunks = [(vals, [v]) for v in vals]
@@ -472,9 +559,9 @@ def run(ctx):
             'states': len(seen), 'transitions': transitions, 'traces_validated_against_impl': transitions,
             'samples': [{'history': s} for s in samples[:3]] or [{'history': []}],
             'exhaustive': not capped, 'max_depth': depth, 'states_by_depth': states_by_depth,
-            'frontier_at_bound': len(frontier), 'encoding_cases': n_enc, 'shelve_histories': shelf_n,
+            'frontier_at_bound': len(frontier), 'encoding_cases': n_enc, 'shelve_histories': shelf_n, 'removal_sequences': n_rem,
             'alphabet': {'users': users, 'sps': sps, 'name_qualifiers': nqs, 'formats': fmts},
-            'rule': 'BFS over operation histories on a fresh real IdentDB (every history replayed on implementation and reference); ops: transient/persistent/issue(find-then-construct)/construct(force-new)/remove_local/remove_remote/manage(new|terminate)/map(allow_create) over identifiers issued so far + one never-issued; states merged, from depth 3 on, by canonical key (db content and reference under renaming of opaque identifier texts, per-user storage order kept); after every step every live/withdrawn/never-issued identifier and every user listing is compared with the reference.  Encoding table: code/decode over all NameIDs with fields from strings of length <= %d over %r' % (1 if not ctx.thorough else 2, ALPH),
+            'rule': 'BFS over operation histories on a fresh real IdentDB (every history replayed on implementation and reference); ops: transient/persistent/issue(find-then-construct)/construct(force-new)/store(externally supplied text, with leading / trailing blank)/remove_local/remove_remote/manage(new|terminate)/map(allow_create) over identifiers issued so far + one never-issued; states merged, from depth 3 on, by canonical key (db content and reference under renaming of opaque identifier texts, per-user storage order kept); after every step every live/withdrawn/never-issued identifier and every user listing is compared with the reference.  Removal layer: every sequence of length <= %d over store(u1,X)/store(u1,Y)/store(u2,Z)/persistent/transient/remove_local(u1)/remove_remote(X) (double storage allowed): after remove_local nothing of u1 resolves or is listed, u2 is untouched, the next identifier resolves.  Encoding table: code/decode over all NameIDs with fields from strings of length <= %d over %r' % (CFG['rdepth'], 1 if not ctx.thorough else 2, ALPH),
         },
         'assumptions': ['identifier texts are opaque to IdentDB (justifies canonical renaming)', 'deterministic id source (vp/env.py) replaces random.SystemRandom',
                         'user ids u1/u2 never collide with identifier texts (the shared key space is only reachable with adversarial user ids)'],
@@ -490,6 +577,9 @@ def replay(ctx, w):
                      sp_provided_id=f[3] or None, text=f[4] or None)
         d = decode(code(nid))
         return {'violation': fields(d) != tuple(x or None for x in f), 'code': code(nid)}
+    if w.get('kind') == 'removal':
+        r = removal_eval([tuple(o) for o in w['ops']])
+        return {'violation': bool(r), 'why': r}
     CFG['alpha'] = (('u1', 'u2'), ('spA', 'spB'), ('', 'idp'), ('P', 'T', 'E'))
     _w, bad = replay_history(w['ops'])
     return {'violation': bool(bad), 'why': bad}
